@@ -102,25 +102,60 @@ mutual
       srcWf env asset s && srcsWf env asset rest && (isNilSrc rest || s.fallback.isNone)
 end
 
+/-! ### Allotments (F2) -/
+
+def noVarPortions : List PortionE → Bool
+  | [] => true
+  | .var _ :: _ => false
+  | _ :: r => noVarPortions r
+
+/-- An allotment of F2: literal portions and `remaining` only, for which both runtimes
+    compute the same list of shares (the machine's `NewAllotment`, the interpreter's
+    `makeAllotment` fix-up of the last `remaining`), non-negative and summing to 1.  (The
+    machine's compiler guarantees all of it for the allotments it accepts; here it is a
+    decided condition, so that no inversion of the compiler's checks is needed.) -/
+def allotOK (env : Env) (ps : List PortionE) : Bool :=
+  noVarPortions ps &&
+  match Machine.makeAllotment env ps, evalAllotItems env ps with
+  | .ok a, .ok items =>
+    decide (a = fillItems items (sumSome items)) &&
+    !((lastRemaining items).isNone && decide (sumSome items ≠ 1)) &&
+    decide (a.sum = 1) && a.all (fun p => decide (0 ≤ p))
+  | _, _ => false
+
+def allotSrcWf (env : Env) (asset : String) : AllotSrcList → Bool
+  | .nil => true
+  | .cons _ s rest => srcWf env asset s && allotSrcWf env asset rest
+
 mutual
   def dstWf (env : Env) (asset : String) : Dest → Bool
     | .account e => okAcct env e
     | .inorder items remaining => inOrderWf env asset items && kdWf env asset remaining
-    | .allot _ => false
+    | .allot items => allotOK env items.portions && allotDstWf env asset items
   def kdWf (env : Env) (asset : String) : KeptOrDest → Bool
     | .kept => false
     | .to d => dstWf env asset d
   def inOrderWf (env : Env) (asset : String) : InOrderDstList → Bool
     | .nil => true
     | .cons m d rest => okCap env asset m && kdWf env asset d && inOrderWf env asset rest
+  def allotDstWf (env : Env) (asset : String) : AllotDstList → Bool
+    | .nil => true
+    | .cons _ d rest => kdWf env asset d && allotDstWf env asset rest
 end
 
-/-- Statements of F1 (relative to the resolved variables). -/
+/-- Statements of F2 (relative to the resolved variables). -/
 def stmtWf (env : Env) : Stmt → Bool
   | .send mon (.src s) d =>
     litsOK mon &&
     (match evalMonetary env mon with
      | .ok (a, some _) => validAsset a && srcWf env a s && dstWf env a d
+     | _ => false)
+  | .send mon (.allot items) d =>
+    litsOK mon &&
+    (match evalMonetary env mon with
+     | .ok (a, some v) =>
+       decide (0 ≤ v) && validAsset a && allotOK env items.portions && allotSrcWf env a items &&
+       dstWf env a d
      | _ => false)
   | .sendAll ae (.src s) d =>
     litsOK ae &&
@@ -130,6 +165,28 @@ def stmtWf (env : Env) : Stmt → Bool
   | .setTxMeta _ e => okVal env e
   | .setAccountMeta acc _ e => okAcct env acc && okVal env e
   | _ => false
+
+/-! ### Allotment-free (F1 ⊆ F2) -/
+
+mutual
+  def dstNoAllot : Dest → Bool
+    | .account _ => true
+    | .inorder items remaining => inOrderNoAllot items && kdNoAllot remaining
+    | .allot _ => false
+  def kdNoAllot : KeptOrDest → Bool
+    | .kept => true
+    | .to d => dstNoAllot d
+  def inOrderNoAllot : InOrderDstList → Bool
+    | .nil => true
+    | .cons _ d rest => kdNoAllot d && inOrderNoAllot rest
+end
+
+def stmtNoAllot : Stmt → Bool
+  | .send _ (.src _) d => dstNoAllot d
+  | .send _ (.allot _) _ => false
+  | .sendAll _ (.src _) d => dstNoAllot d
+  | .sendAll _ (.allot _) _ => false
+  | _ => true
 
 /-! ## The bounded sources are tracked
 
@@ -147,6 +204,10 @@ def stmtLeavesIn (P : List (String × String)) (env : Env) : Stmt → Bool
   | .send mon (.src s) _ =>
     (match evalMonetary env mon with
      | .ok (c, _) => leavesIn P env c s.neededAccts
+     | .error _ => false)
+  | .send mon (.allot items) _ =>
+    (match evalMonetary env mon with
+     | .ok (c, _) => leavesIn P env c items.neededAccts
      | .error _ => false)
   | .sendAll ae (.src s) _ =>
     (match evalAssetE env ae with
@@ -180,7 +241,7 @@ def envAgree (names : List String) (env ienv : Env) : Bool :=
 
 /-- The two front ends agree on the input: both fail, or they bind every variable to the
     same value, the interpreter has fetched every balance the machine tracks, and the
-    machine tracks the balance of every bounded source of the F1 statements. -/
+    machine tracks the balance of every bounded source of the statements of the fragment. -/
 def FrontAgree (s : Script) (inp : Input) : Bool :=
   match prepare Cfg.fixed s inp, front s inp with
   | .error _, .error _ => true
@@ -190,19 +251,23 @@ def FrontAgree (s : Script) (inp : Input) : Bool :=
     s.stmts.all (fun st => !stmtWf env st || stmtLeavesIn pairs env st)
   | _, _ => false
 
-/-! ## F1 -/
+/-! ## F2 and F1 -/
 
-/-- First condition of F1 that fails (`""` = the program is in F1). -/
-def whyNotF1 (s : Script) (inp : Input) : String :=
+/-- First condition of F2 that fails (`""` = the program is in F2). -/
+def whyNotF2 (s : Script) (inp : Input) : String :=
   match typecheck s with
   | .error _ => "machine-compile-error"
   | .ok _ =>
     if !FrontAgree s inp then "front-ends-differ"
     else
       match prepare Cfg.fixed s inp with
-      | .error _ => ""   -- both front ends fail: in F1 (both runtimes fail)
-      | .ok (env, _, _) => if s.stmts.all (stmtWf env) then "" else "statement-outside-F1"
+      | .error _ => ""   -- both front ends fail: in the fragment (both runtimes fail)
+      | .ok (env, _, _) => if s.stmts.all (stmtWf env) then "" else "statement-outside-F2"
 
-def InF1 (s : Script) (inp : Input) : Bool := whyNotF1 s inp = ""
+/-- F2 = F1 + allotment sources and destinations (literal portions, `remaining`). -/
+def InF2 (s : Script) (inp : Input) : Bool := whyNotF2 s inp = ""
+
+/-- F1 = the allotment-free programs of F2. -/
+def InF1 (s : Script) (inp : Input) : Bool := InF2 s inp && s.stmts.all stmtNoAllot
 
 end Ledger.Interp
